@@ -14,6 +14,7 @@ import (
 	"os"
 	"os/exec"
 	"path/filepath"
+	"strings"
 	"time"
 
 	"github.com/lindb/common/pkg/ltoml"
@@ -60,6 +61,9 @@ func (H) Gen(prop string, rng *rand.Rand, tier string) *core.Plan {
 	p.Cfg["switch_pm"] = []int{50, 200, 500}[rng.Intn(3)]
 	p.Cfg["fault_pm"] = []int{0, 20, 60, 150}[rng.Intn(4)] // per stream operation
 	p.Cfg["max_steps"] = 3000000
+	// stalls inside the follower's stream handlers (check-then-append of ReplicaLog, queue.Put): two
+	// handlers of one partition are alive together only around a broken stream, a short window
+	p.Cfg["hot_pm"] = []int{0, 0, 30, 100}[rng.Intn(4)]
 	n := 4 + rng.Intn(14)
 	for i := 0; i < n; i++ {
 		switch r := rng.Intn(100); {
@@ -155,6 +159,7 @@ type cluster struct {
 	faultPM  int
 	noFaults bool
 	streams  int
+	streamTasks map[int]bool // tasks that run a follower stream handler
 
 	// ledger
 	written  map[int64][]byte // leader sequence -> bytes as appended (of the leader's current log history)
@@ -329,6 +334,7 @@ func (c *simClient) Replica(ctx context.Context, _ ...grpc.CallOption) (protoRep
 	cl.streams++
 	st := &stream{cl: cl, id: cl.streams, target: n, inc: n.inc, leaderInc: cl.nodes[leaderID].inc, ctx: metadata.NewIncomingContext(context.Background(), md)}
 	cl.sim.SpawnIn(n.inc, fmt.Sprintf("stream%d", st.id), func() {
+		cl.streamTasks[cl.sim.CurTask()] = true
 		err := n.handler.Replica(&srvStream{st: st})
 		cl.sim.Event("stream %d handler ended: %v", st.id, err)
 		st.srvDone = true
@@ -587,7 +593,20 @@ func (cl *cluster) check(when string) {
 func (H) Run(c *core.RunCtx) {
 	sim := c.Sim
 	cl := &cluster{c: c, sim: sim, nodes: map[int]*node{}, live: map[int]bool{leaderID: true, followerID: true}, watchers: map[int][]func(models.NodeStateType){},
-		appendedBy: map[int64]int{}, faultPM: c.Plan.C("fault_pm", 0), written: map[int64][]byte{}, lostFrom: 1 << 60, prevAck: -1}
+		appendedBy: map[int64]int{}, faultPM: c.Plan.C("fault_pm", 0), written: map[int64][]byte{}, lostFrom: 1 << 60, prevAck: -1, streamTasks: map[int]bool{}}
+	if hot := float64(c.Plan.C("hot_pm", 0)) / 1000; hot > 0 {
+		sim.OnYield = func(label string) {
+			if cl.noFaults || !cl.streamTasks[sim.CurTask()] {
+				return
+			}
+			if (strings.HasPrefix(label, "replica.") || strings.HasPrefix(label, "queue.") || label == "lock") && sim.Tape.Chance(hot) {
+				// a slow follower (disk stall, page roll-over) inside the handler: simulated time passes, so
+				// the leader can notice a broken stream, shake hands and offer the same index on a new stream
+				sim.Fault("follower-stall")
+				simrt.Sleep(time.Duration(1+sim.Tape.Choose(12)) * time.Millisecond)
+			}
+		}
+	}
 	// the follower's partition gets a log whose append may fail
 	replica.NewPartitionFn = func(ctx context.Context, shard tsdb.Shard, family tsdb.DataFamily, nodeID models.NodeID,
 		log queue.FanOutQueue, cliFct rpc.ClientStreamFactory, stateMgr storage.StateManager) replica.Partition {
